@@ -106,6 +106,35 @@ int main(int argc, char **argv)
 			if (len > 0) vf_nontrivial(vf_mix(fam, ((uint64_t) len << 8) | al));
 			vf_outcome(want);
 		}
+	} else if (!strcmp(VF.space, "selfimage")) {
+		/* for EVERY state: short buffers built from the state's own bytes, their complements and zeros (a data-dependent
+		 * shortcut keyed on a relation between state and input would have to show here), lengths 3..9, whole and split */
+		unsigned c;
+		for (c = 0; c < 65536; ++c) {
+			uint8_t lo = (uint8_t) c, hi = (uint8_t) (c >> 8);
+			uint8_t pats[8][4] = { { lo, hi, 0, 0 }, { hi, lo, 0, 0 }, { lo, hi, lo, hi }, { 0, 0, lo, hi }, { (uint8_t) ~lo, (uint8_t) ~hi, 0xFF, 0xFF },
+			                       { lo, 0, hi, 0 }, { 0, 0, 0, 0 }, { 0xFF, 0xFF, 0xFF, 0xFF } };
+			int p, len, k;
+			if (!vf_case("state=%04x self-image buffers", c)) continue;
+			for (p = 0; p < 8; ++p)
+			for (len = 3; len <= 9; ++len) {
+				uint8_t buf[16];
+				uint16_t want, got, g2;
+				for (k = 0; k < len; ++k) buf[k] = pats[p][k & 3];
+				if (len > 4) for (k = 4; k < len; ++k) buf[k] = p < 6 ? 0 : pats[p][0];
+				want = ref_crc16((uint16_t) c, buf, (size_t) len);
+				got = (uint16_t) c;
+				lha_crc16_buf(&got, buf, (size_t) len);
+				g2 = (uint16_t) c;
+				lha_crc16_buf(&g2, buf, 2);
+				lha_crc16_buf(&g2, buf + 2, (size_t) len - 2);
+				++VF.transitions;
+				if (got != want || g2 != want)
+					vf_viol("crc-selfimage", "state=%04x buf=%s: whole %04x, split at 2 %04x, reference %04x", c, vf_hex(buf, (size_t) len), got, g2, want);
+			}
+			vf_set_add(&VF_STATES, c + 1);
+			vf_nontrivial(c + 1);
+		}
 	} else if (!strcmp(VF.space, "long")) {
 		/* lengths around 2^16, 2^17, 2^20 and 2^24: whole, and split at boundary points, two alignments */
 		static const size_t lens[] = { 65534, 65535, 65536, 65537, 65538, 131071, 131072, 131073, 1048575, 1048576, 1048577, 16777215, 16777216, 16777217 };
